@@ -192,3 +192,27 @@ func (db *DB) VerifFreelistCopyall() []uint64 {
 func (db *DB) VerifFreed(id uint64) bool {
 	return db.freelist != nil && db.freelist.Freed(common.Pgid(id))
 }
+
+// VerifState returns the free ids and the pending entries (freeing txid, page id,
+// allocating txid) of a bare backend.
+func (v *VerifFreelist) State() (free []uint64, pending [][3]uint64) {
+	return verifFLState(v.f)
+}
+
+// VerifFreelistState is the same view of the database's own freelist (nil, nil when not loaded).
+func (db *DB) VerifFreelistState() (free []uint64, pending [][3]uint64) {
+	if db.freelist == nil {
+		return nil, nil
+	}
+	return verifFLState(db.freelist)
+}
+
+func verifFLState(f fl.Interface) (free []uint64, pending [][3]uint64) {
+	for _, id := range fl.VerifFreeIDs(f) {
+		free = append(free, uint64(id))
+	}
+	for _, e := range fl.VerifPending(f) {
+		pending = append(pending, [3]uint64{uint64(e.Txid), uint64(e.ID), uint64(e.Alloc)})
+	}
+	return
+}
